@@ -112,6 +112,11 @@ def configs(tier):
              dict(die=(), put_faults=(), max_adv=2, next=True)),
             ('quota1/imap_unordered', 2, [imu], dict(base, maxtasksperchild=1),
              dict(die=(), put_faults=(), max_adv=2, next=True)),
+            # the quota-filling job's callback raises an exception the
+            # caller asked to have propagated
+            ('quota1/raising-callback', 1, [dict(ap, cb_raises=True), ap],
+             dict(base, maxtasksperchild=1),
+             dict(die=(), put_faults=(), max_adv=2)),
             ('quota1/1proc', 1, [ap, ap], dict(base, maxtasksperchild=1),
              dict(die=(-9,), die_idle=True, put_faults=(), max_adv=2)),
             ('grow-shrink', 2, [ap, ap], base,
